@@ -683,6 +683,9 @@ def generate_coords():
         translate_typed("verde/coordinates.py", "get_region", "getRegion",
                         [("coordinates[0]", "east", "ratlist"), ("coordinates[1]", "north", "ratlist")],
                         ["optrat", "optrat", "optrat", "optrat"]),
+        translate_do("verde/coordinates.py", "line_coordinates", "lineCoordinates",
+                     [("start", "start", "rat"), ("stop", "stop", "rat"), ("size", "size", "optint"), ("spacing", "spacing", "optrat"),
+                      ("adjust", "adjust", "str"), ("pixel_register", "pixel", "bool")], "ratlist"),
         translate_typed("verde/coordinates.py", "shape_to_spacing", "shapeToSpacing",
                         [("region[0]", "w", "rat"), ("region[1]", "e", "rat"), ("region[2]", "s", "rat"), ("region[3]", "n", "rat"),
                          ("shape[0]", "nNorth", "int"), ("shape[1]", "nEast", "int"), ("pixel_register", "pixel", "bool")],
@@ -912,3 +915,277 @@ def translate_v2w():
             f"/-- the loop and return skeleton: one output array per input component, in order (a bare array when there is one) -/\n"
             f"def varianceToWeights (variance : List (List (Option Rat))) (tol : Rat) : List (List Rat) :=\n"
             f"  variance.map (fun var => varianceToWeightsComp var tol)\n")
+
+
+# ============================================================================= statement-by-statement (do-notation) translation
+class DoT:
+    """Python statements -> one Lean `do` block in `Except Err` (sequencing, early `raise`, calls to other translated functions,
+    optional arguments).  Values are (lean text, type) with types rat | int | bool | str | optint | optrat | ratlist.  Python
+    variables are Lean `let` bindings (rebinding = shadowing); an `if/elif/else` that assigns variables becomes
+    `let (v1, ..) <- if c then do ..; pure (v1, ..) else ..`; `x is not None` on an optional value opens a `match`."""
+
+    KNOWN_CALLS = {"spacing_to_size": ("Gen.spacingToSize", ["rat", "rat", "rat", "str"], ["int", "rat"])}
+
+    def __init__(self, env):
+        self.env = dict(env)
+        self.tmp = 0
+
+    def fresh(self):
+        self.tmp += 1
+        return f"t{self.tmp}"
+
+    # ---- expressions: returns (pre-lines, lean text, type)
+    def ex(self, n):
+        if isinstance(n, ast.Name):
+            if n.id not in self.env:
+                _fail(n, "unbound name")
+            return [], self.env[n.id][0], self.env[n.id][1]
+        if isinstance(n, ast.Constant):
+            if isinstance(n.value, bool):
+                return [], ("true" if n.value else "false"), "bool"
+            if isinstance(n.value, int):
+                return [], str(n.value), "num"
+            _fail(n, "literal")
+        if isinstance(n, ast.BinOp):
+            p1, a, ta = self.ex(n.left)
+            p2, b, tb = self.ex(n.right)
+            pre = p1 + p2
+            op = {ast.Add: "+", ast.Sub: "-", ast.Mult: "*", ast.Div: "/"}.get(type(n.op))
+            if op is None:
+                _fail(n, "operator")
+            # optional integer used as a number: Python would raise TypeError on None
+            if ta == "optint":
+                t = self.fresh(); pre.append(f"let {t} ← optGet {a}"); a, ta = t, "int"
+            if tb == "optint":
+                t = self.fresh(); pre.append(f"let {t} ← optGet {b}"); b, tb = t, "int"
+            if ta == "ratlist" and tb in ("rat", "num", "int") and op in ("+", "-"):
+                sb = b if tb != "int" else f"(({b} : Int) : Rat)"
+                return pre, f"({a}.map (fun v => v {op} {sb}))", "ratlist"
+            if "rat" in (ta, tb) or op == "/":
+                ca = a if ta != "int" else f"(({a} : Int) : Rat)"
+                cb = b if tb != "int" else f"(({b} : Int) : Rat)"
+                return pre, f"({ca} {op} {cb})", "rat"
+            ty = "int" if "int" in (ta, tb) else "num"
+            return pre, f"({a} {op} {b})", ty
+        if isinstance(n, ast.Subscript):
+            pv, v, tv = self.ex(n.value)
+            if tv == "ratlist":
+                if isinstance(n.slice, ast.Slice) and n.slice.lower is None and n.slice.step is None and isinstance(n.slice.upper, ast.UnaryOp) \
+                        and isinstance(n.slice.upper.op, ast.USub) and getattr(n.slice.upper.operand, "value", None) == 1:
+                    return pv, f"{v}.dropLast", "ratlist"
+                if isinstance(n.slice, ast.Constant) and isinstance(n.slice.value, int) and n.slice.value >= 0:
+                    t = self.fresh()
+                    return pv + [f"let {t} ← idxE {v} {n.slice.value}"], t, "rat"
+            _fail(n, "subscript")
+        if isinstance(n, ast.Call):
+            f = n.func
+            if isinstance(f, ast.Attribute) and isinstance(f.value, ast.Name) and f.value.id == "np" and f.attr == "linspace" \
+                    and len(n.args) == 3 and not n.keywords:
+                pre, args = [], []
+                for a_ in n.args[:2]:
+                    p, t, ty = self.ex(a_)
+                    pre += p
+                    args.append(t if ty != "int" else f"(({t} : Int) : Rat)")
+                p, t, ty = self.ex(n.args[2])
+                pre += p
+                if ty == "optint":
+                    t2 = self.fresh(); pre.append(f"let {t2} ← optGet {t}"); t, ty = t2, "int"
+                if ty not in ("int", "num"):
+                    _fail(n, "linspace count is not an integer")
+                r = self.fresh()
+                pre.append(f"let {r} ← linspaceE {args[0]} {args[1]} {t}")
+                return pre, r, "ratlist"
+        _fail(n, "unsupported expression")
+
+    def cond(self, n):
+        """-> (pre-lines, Prop text)"""
+        if isinstance(n, ast.BoolOp):
+            pres, parts = [], []
+            for v in n.values:
+                p, c = self.cond(v)
+                pres += p
+                parts.append(f"({c})")
+            return pres, (" ∧ " if isinstance(n.op, ast.And) else " ∨ ").join(parts)
+        if isinstance(n, ast.Compare) and len(n.ops) == 1 and isinstance(n.ops[0], (ast.Is, ast.IsNot)) \
+                and isinstance(n.comparators[0], ast.Constant) and n.comparators[0].value is None:
+            p, t, ty = self.ex(n.left)
+            if not ty.startswith("opt"):
+                _fail(n, "`is None` on a value that is never None here")
+            return p, f"{t}.{'isNone' if isinstance(n.ops[0], ast.Is) else 'isSome'} = true"
+        if isinstance(n, ast.Name):
+            p, t, ty = self.ex(n)
+            if ty == "bool":
+                return p, f"{t} = true"
+        _fail(n, "unsupported condition")
+
+    # ---- statements: returns list of lines (no indentation)
+    def assigned(self, body):
+        out = []
+        for st in body:
+            if isinstance(st, ast.Assign):
+                for t in st.targets:
+                    for e in (t.elts if isinstance(t, ast.Tuple) else [t]):
+                        if isinstance(e, ast.Name) and e.id not in out:
+                            out.append(e.id)
+            elif isinstance(st, ast.If):
+                for x in self.assigned(st.body) + self.assigned(st.orelse):
+                    if x not in out:
+                        out.append(x)
+        return out
+
+    def block(self, body):
+        lines = []
+        for st in body:
+            if isinstance(st, ast.Expr) and isinstance(st.value, ast.Constant):
+                continue
+            if isinstance(st, ast.If) and len(st.body) == 1 and isinstance(st.body[0], ast.Raise) and not st.orelse:
+                p, c = self.cond(st.test)
+                exc = st.body[0].exc
+                name = exc.func.id if isinstance(exc, ast.Call) and isinstance(exc.func, ast.Name) else None
+                if name != "ValueError":
+                    _fail(st, "unsupported exception type")
+                lines += p + [f"if {c} then throw Err.valueError"]
+                continue
+            if isinstance(st, ast.If):
+                lines += self.branching(st)
+                continue
+            if isinstance(st, ast.Assign) and len(st.targets) == 1:
+                t, v = st.targets[0], st.value
+                if isinstance(t, ast.Tuple) and isinstance(v, ast.Call) and isinstance(v.func, ast.Name) and v.func.id in self.KNOWN_CALLS:
+                    lean, argt, rett = self.KNOWN_CALLS[v.func.id]
+                    pre, args = [], []
+                    for a_, want in zip(v.args, argt):
+                        p, tx, ty = self.ex(a_)
+                        pre += p
+                        if ty != want and not (ty == "num"):
+                            _fail(st, f"argument type {ty} for {want}")
+                        args.append(tx)
+                    names = [e.id for e in t.elts]
+                    lines += pre + [f"let ({', '.join(names)}) ← {lean} {' '.join(args)}"]
+                    for nm, ty in zip(names, rett):
+                        self.env[nm] = (nm, ty)
+                    continue
+                if isinstance(t, ast.Name):
+                    p, tx, ty = self.ex(v)
+                    lines += p + [f"let {t.id} := {tx}"]
+                    self.env[t.id] = (t.id, "int" if ty == "num" else ty)
+                    continue
+            if isinstance(st, ast.Return):
+                p, tx, ty = self.ex(st.value)
+                lines += p + [f"return {tx}"]
+                self.ret = ty
+                continue
+            _fail(st, "unsupported statement")
+        return lines
+
+    def branching(self, st):
+        """if / elif / else whose branches (re)assign variables."""
+        vs = [v for v in self.assigned([st]) if v in self.env]
+        if len(vs) != len(self.assigned([st])):
+            _fail(st, "a branch introduces a new name")
+        before = {v: self.env[v][1] for v in vs}
+
+        def run_branch(body, env):
+            sub = DoT(env)
+            sub.tmp = self.tmp + 100 * (1 + len(body))
+            ls = sub.block(body)
+            return ls, sub
+
+        def join(ty_a, ty_b):
+            if ty_a == ty_b:
+                return ty_a
+            if {ty_a, ty_b} == {"int", "optint"}:
+                return "optint"
+            _fail(st, f"branches disagree on a type: {ty_a} vs {ty_b}")
+
+        # collect the branch chain
+        chain, node = [], st
+        while True:
+            chain.append((node.test, node.body))
+            if len(node.orelse) == 1 and isinstance(node.orelse[0], ast.If):
+                node = node.orelse[0]
+                continue
+            tail = node.orelse
+            break
+        results = []
+        for test, body in chain:
+            opened = None
+            if isinstance(test, ast.Compare) and len(test.ops) == 1 and isinstance(test.ops[0], ast.IsNot) and isinstance(test.left, ast.Name) \
+                    and getattr(test.comparators[0], "value", 0) is None and self.env[test.left.id][1].startswith("opt"):
+                opened = test.left.id
+                env = dict(self.env)
+                env[opened] = (opened, self.env[opened][1][3:])
+                ls, sub = run_branch(body, env)
+                results.append(("match", opened, ls, sub))
+            else:
+                p, c = self.cond(test)
+                ls, sub = run_branch(body, dict(self.env))
+                results.append(("if", (p, c), ls, sub))
+        tail_ls, tail_sub = run_branch(tail, dict(self.env)) if tail else ([], DoT(dict(self.env)))
+        # joined types
+        out_ty = {}
+        for v in vs:
+            ty = tail_sub.env[v][1]
+            for r in results:
+                ty = join(ty, r[3].env[v][1] if not (r[0] == "match" and r[1] == v and v not in self.assigned([ast.If(test=ast.Constant(True), body=chain[results.index(r)][1], orelse=[])]))
+                          else before[v])
+            out_ty[v] = ty
+
+        def pack(sub, opened=None):
+            parts = []
+            for v in vs:
+                tx, ty = sub.env[v]
+                if opened == v and v not in sub_assigned.get(id(sub), []):
+                    tx, ty = f"(some {v})", before[v]          # the matched value itself, re-wrapped
+                if ty != out_ty[v]:
+                    tx = f"(some {tx})"
+                parts.append(tx)
+            return "pure (" + ", ".join(parts) + ")" if len(parts) > 1 else "pure " + parts[0]
+
+        sub_assigned = {}
+        for (test, body), r in zip(chain, results):
+            sub_assigned[id(r[3])] = self.assigned(body)
+        sub_assigned[id(tail_sub)] = self.assigned(tail)
+
+        def render(i, ind):
+            pad = "  " * ind
+            if i == len(results):
+                return [pad + ln for ln in tail_ls] + [pad + pack(tail_sub)]
+            kind, info, ls, sub = results[i]
+            out = []
+            if kind == "match":
+                out.append(f"{pad}match {info} with")
+                out.append(f"{pad}| some {info} => do")
+                out += [pad + "    " + ln for ln in ls] + [pad + "    " + pack(sub, opened=info)]
+                out.append(f"{pad}| none => do")
+                out += render(i + 1, ind + 2)
+            else:
+                p, c = info
+                out += [pad + ln for ln in p]
+                out.append(f"{pad}if {c} then do")
+                out += [pad + "    " + ln for ln in ls] + [pad + "    " + pack(sub)]
+                out.append(f"{pad}else do")
+                out += render(i + 1, ind + 2)
+            return out
+        lhs = "(" + ", ".join(vs) + ")" if len(vs) > 1 else vs[0]
+        body = render(0, 1)
+        for v in vs:
+            self.env[v] = (v, out_ty[v])
+        self.tmp += 1000
+        return [f"let {lhs} ← (do"] + body + ["  )"]
+
+
+def translate_do(path, name, lean_name, params, rettype):
+    src = open(os.path.join(REPO, path)).read()
+    fn = find_func(ast.parse(src), name)
+    d = DoT({py: (lean, ty) for py, lean, ty in params})
+    d.ret = None
+    lines = d.block(fn.body)
+    lean_ty = {"rat": "Rat", "int": "Int", "bool": "Bool", "str": "String", "optint": "Option Int", "optrat": "Option Rat", "ratlist": "List Rat"}
+    if d.ret != rettype:
+        raise Untranslatable(f"{name}: returns {d.ret}, expected {rettype}")
+    args = " ".join(f"({lean} : {lean_ty[ty]})" for _, lean, ty in params)
+    seg = ast.get_source_segment(src, fn)
+    sha = hashlib.sha256(seg.encode()).hexdigest()[:16]
+    return (f"/-- translated statement by statement from {path}:{fn.lineno}-{fn.end_lineno} ({name}), sha256 {sha} -/\n"
+            f"def {lean_name} {args} : Except Err ({lean_ty[rettype]}) := do\n" + "\n".join("  " + ln for ln in lines) + "\n")
